@@ -102,10 +102,23 @@ def expand_module(tree, m, extra_text=""):
         sa, sb = sa.lstrip("^"), sb.lstrip("^")
         last_b = sb.startswith("$")      # `$text`: the LAST occurrence in the item body
         sb = sb.lstrip("$")
-        a = list(re.finditer(extract._tok_regex(sa), body))
+        class _Pos:
+            def __init__(self, p):
+                self.p = p
+            def start(self):
+                return self.p
+            def end(self):
+                return self.p
+        if sa == "BEGIN":          # the beginning of the item body
+            a = [_Pos(0)]
+        else:
+            a = list(re.finditer(extract._tok_regex(sa), body))
         if len(a) != 1:
             raise rsrc.LostAnchor("fragment %s start matched %d times" % (fid, len(a)))
-        b = [x for x in re.finditer(extract._tok_regex(sb), body) if x.start() >= a[0].end() or (sa == sb and not xa)]
+        if sb == "END":            # the end of the item body
+            b = [_Pos(len(body))]
+        else:
+            b = [x for x in re.finditer(extract._tok_regex(sb), body) if x.start() >= a[0].end() or (sa == sb and not xa)]
         if not b:
             raise rsrc.LostAnchor("fragment %s end not found" % fid)
         if last_b:
